@@ -75,6 +75,13 @@ type indirectIssuanceChainService struct {
 func (s *indirectIssuanceChainService) BuildLogLeaf(ctx context.Context, chain []*x509.Certificate, logPrefix string, merkleLeaf *ct.MerkleTreeLeaf, isPrecert bool) (*trillian.LogLeaf, error) {
 	raw := extractRawCerts(chain)
 
+	// Refuse a chain whose extra data could never be served again: what readers
+	// get (and what is stored when chains are kept in the backend) is the TLS
+	// encoding of the chain, which is limited in size unlike its ASN.1 form.
+	if _, err := util.ExtraDataForChain(raw[0], raw[1:], isPrecert); err != nil {
+		return nil, fmt.Errorf("failed to serialize chain for ExtraData: %s", err)
+	}
+
 	// Add the chain to storage and cache, and then build log leaf
 	issuanceChain, err := asn1.Marshal(raw[1:])
 	if err != nil {
